@@ -137,6 +137,7 @@ pub struct Recd {
     /// fragments of the handshake message being reassembled: (message_seq, bytes so far), appended in
     /// arrival order like the code does
     frag: (u16, Vec<u8>),
+    frag2: (u16, Vec<u8>),
     pub ticks_done: u32,
     /// certificates (DER) and verified facts, for the property oracle
     pub shown_cert_fps: Vec<String>,
@@ -151,7 +152,7 @@ impl Recd {
         // the key log is keyed by an address: drop whatever an earlier transport at the same address left behind
         let _ = rustrtc::verif_hooks::dtls::take_keys(ep.dtls.verif_instance_id());
         Recd { ep, expected, ops: vec![], outs: vec![], facts: BTreeMap::new(), keys: vec![], own: vec![], certs_seen: vec![],
-            srs_seen: vec![], last_ske_share: None, frag: (0, vec![]), ticks_done: 0, shown_cert_fps: vec![], sig_ok_under: vec![], clear_violations: vec![] }
+            srs_seen: vec![], last_ske_share: None, frag: (0, vec![]), frag2: (0, vec![]), ticks_done: 0, shown_cert_fps: vec![], sig_ok_under: vec![], clear_violations: vec![] }
     }
 
     fn note_sent(&mut self, sent: &[Vec<u8>]) {
@@ -191,6 +192,13 @@ impl Recd {
             let Some(p) = payload else { continue };
             for m in parse_hs(&p) {
                 if m.total as usize == m.body.len() { self.learn_body(m.typ, &m.body); continue; }
+                // (a second reassembly that also takes the new tail of a fragment overlapping the buffer)
+                if self.frag2.0 != m.seq || m.off == 0 { self.frag2 = (m.seq, vec![]); }
+                if (m.off as usize) <= self.frag2.1.len() && m.off as usize + m.body.len() > self.frag2.1.len() {
+                    let skip = self.frag2.1.len() - m.off as usize;
+                    self.frag2.1.extend_from_slice(&m.body[skip..]);
+                    if self.frag2.1.len() >= m.total as usize { let b = std::mem::take(&mut self.frag2.1); self.learn_body(m.typ, &b); }
+                }
                 if self.frag.0 != m.seq || m.off == 0 { self.frag = (m.seq, vec![]); }
                 if m.off as usize != self.frag.1.len() { continue; } // only the fragment that continues the buffer counts
                 self.frag.1.extend_from_slice(&m.body);
